@@ -104,7 +104,7 @@ def value_eq(a, b):
     n = a.name
     if n == 'Number':
         da, db = a.f[0], b.f[0]
-        if da.src and db.src and da.src[0] == 'bv' and db.src[0] == 'bv' and da.s == 0 and db.s == 0:
+        if da.src and db.src and da.src != 'negzero' and db.src != 'negzero' and da.src[0] == 'bv' and db.src[0] == 'bv' and da.s == 0 and db.s == 0:
             return da.src[1] == db.src[1]
         return num_eq(da, db)
     if n == 'Bool':
@@ -230,7 +230,7 @@ class RefEval:
         if not is_num(v):
             raise RefErr('not a number')
         d = dec_of(v)
-        if d.src and d.src[0] == 'bv' and d.s == 0:
+        if d.src and d.src != 'negzero' and d.src[0] == 'bv' and d.s == 0:
             return d.src[1]
         m, s = d.m, d.s
         if not is_sym(m):
